@@ -44,6 +44,11 @@ type c02HexX struct {
 	F bool `short:"f" long:"ff"`
 }
 
+type c02OptX struct {
+	X string `short:"x" long:"nm" optional:"yes" optional-value:"OV"`
+	F bool   `short:"f" long:"ff"`
+}
+
 type c02Out struct {
 	errNil  bool
 	typed   bool
@@ -118,6 +123,11 @@ func c02Run(k int, opts Options, argv []string, mapKeys []string) c02Out {
 		p.AddGroup("Application Options", "", &d)
 		rest, err = p.ParseArgs(argv)
 		o.ival, o.flag = d.X, d.F
+	case 9:
+		var d c02OptX
+		p.AddGroup("Application Options", "", &d)
+		rest, err = p.ParseArgs(argv)
+		o.val, o.flag = d.X, d.F
 	}
 	o.rest = rest
 	o.errNil = err == nil
@@ -128,7 +138,7 @@ func c02Run(k int, opts Options, argv []string, mapKeys []string) c02Out {
 	return o
 }
 
-var c02Shorts = []string{"x", "é", "€", "3", "x", "x", "x", "x", "x"}
+var c02Shorts = []string{"x", "é", "€", "3", "x", "x", "x", "x", "x", "x"}
 
 // c02Admissible: the spelling denotes (option, V) under the documented grammar.
 func c02Admissible(v *V, sp int, kind int, opts Options, V string) bool {
@@ -136,6 +146,10 @@ func c02Admissible(v *V, sp int, kind int, opts Options, V string) bool {
 	case spShortAttached:
 		return len(V) > 0 && V[0] != '='
 	case spShortSep, spLongSep:
+		if kind == 9 {
+			// an option with an optional argument takes it in attached form only
+			return false
+		}
 		if opts&PassDoubleDash != 0 && V == "--" {
 			return false
 		}
@@ -209,6 +223,34 @@ func H_C02_pair(v *V) {
 		// the outcome the property speaks of (remaining arguments are defined
 		// on success)
 		v.Assert(v.EqStrs(a.rest, b.rest), "both spellings leave the same remaining arguments")
+	}
+}
+
+// H_C02_optional: the documented exception - an option with an optional
+// argument given in the separate-token form takes its optional value and
+// leaves the next token alone.
+func H_C02_optional(v *V) {
+	V := v.String(v.Shape("lv"))
+	v.Assume(!refOptionSyntax(V) && V != "--")
+	long := v.Choice(2) == 1
+	last := v.Choice(2) == 1
+	var argv []string
+	if long {
+		argv = []string{"--nm"}
+	} else {
+		argv = []string{"-x"}
+	}
+	if !last {
+		argv = append(argv, V)
+	}
+	o := c02Run(9, None, argv, nil)
+	v.Reach("success")
+	v.Assert(o.errNil, "an option with an optional argument parses without one")
+	v.Assert(v.EqStr(o.val, "OV"), "without an attached argument the optional value is stored")
+	if last {
+		v.Assert(len(o.rest) == 0, "nothing remains")
+	} else {
+		v.Assert(v.EqStrs(o.rest, []string{V}), "the following token is not consumed as the argument; it remains")
 	}
 }
 
@@ -322,4 +364,5 @@ func init() {
 	vHarnesses["H_C02_pair"] = H_C02_pair
 	vHarnesses["H_C02_cluster"] = H_C02_cluster
 	vHarnesses["H_C02_quoted"] = H_C02_quoted
+	vHarnesses["H_C02_optional"] = H_C02_optional
 }
